@@ -71,8 +71,13 @@ class Engine:
         t = time.time()
         outdir = os.path.join(self.work, "apalache-" + mc["name"].split("(")[0])
         ok = True
-        for args in (["--init=Init", "--inv=" + mc["inv"], "--length=0"], ["--init=" + mc["indinit"], "--inv=" + mc["inv"], "--length=1"]):
-            r = sh(["timeout", str(mc.get("timeout", 900)), "apalache-mc", "check", "--out-dir=" + outdir] + args + [mc["tla"]],
+        obligations = [["--init=Init", "--inv=" + mc["inv"], "--length=0"], ["--init=" + mc["indinit"], "--inv=" + mc["inv"], "--length=1"]]
+        if mc.get("implies"):
+            # the invariant implies the stated consequences (checked on every state satisfying the invariant)
+            obligations.append(["--init=" + mc["indinit"], "--inv=" + mc["implies"], "--length=0"])
+        cinit = ["--cinit=" + mc["cinit"]] if mc.get("cinit") else []
+        for args in obligations:
+            r = sh(["timeout", str(mc.get("timeout", 900)), "apalache-mc", "check", "--out-dir=" + outdir] + cinit + args + [mc["tla"]],
                    cwd=os.path.join(self.spec, "apalache"))
             if "EXITCODE: OK" not in r.stdout:
                 ok = False
@@ -80,7 +85,7 @@ class Engine:
         shutil.rmtree(outdir, ignore_errors=True)
         self.mc_stats.append({"name": mc["name"], "spec": "apalache/" + mc["tla"], "cfg": "inductive invariant " + mc["inv"], "ok": ok,
                               "states_generated": 0, "distinct_states": 0, "tool": "apalache-mc 0.58 (symbolic, unbounded in the number of reads)",
-                              "obligations": 2, "discharged": 2 if ok else 0, "wall_s": round(time.time() - t, 1)})
+                              "obligations": len(obligations), "discharged": len(obligations) if ok else 0, "wall_s": round(time.time() - t, 1)})
         if not ok:
             raise ToolError("Apalache did not discharge the inductive invariant of " + mc["tla"])
         return []
